@@ -3,7 +3,7 @@ from checklib import cN, cbool, clist, cpair
 
 ID = "C05"
 HARNESS = "c05"
-N_CASES = {"quick": 100, "thorough": 600}
+N_CASES = {"quick": 60, "thorough": 600}
 N_SEARCH = {"quick": 1, "thorough": 1}
 SHARD = 160
 HAS_MODEL_OUT = True
